@@ -77,10 +77,10 @@ def layouts(chk, lay):
         if l['tys'] in seen:
             continue
         seen.add(l['tys'])
-        got = {f['name']: (f['off'], f['size']) for f in l['fields']}
-        want = {'pointer_low': D.GATE_LAYOUT['offset_0_15'], 'options': (D.GATE_LAYOUT['selector'][0], 4),
-                'pointer_middle': D.GATE_LAYOUT['offset_16_31'], 'pointer_high': D.GATE_LAYOUT['offset_32_63'],
-                'reserved': D.GATE_LAYOUT['reserved'], 'phantom': (16, 0)}
+        # the gate's pieces in declaration order (the field names are private and free): offset 0..15 @0, selector+options @2, offset 16..31 @6,
+        # offset 32..63 @8, reserved @12, zero-sized marker; which piece receives which address bits is decided by the entry rules
+        got = [(f['off'], f['size']) for f in l['fields']]
+        want = [D.GATE_LAYOUT['offset_0_15'], (D.GATE_LAYOUT['selector'][0], 4), D.GATE_LAYOUT['offset_16_31'], D.GATE_LAYOUT['offset_32_63'], D.GATE_LAYOUT['reserved'], (16, 0)]
         chk.ob('layout', 'gate layout of %s' % l['tys'].replace('structures::idt::', ''), got == want and l['size'] == 16, 'found %s size %d' % (got, l['size']))
         chk.count('layouts')
 
@@ -266,8 +266,7 @@ def entry_fields(I, chk):
 def entry(chk):
     I = chk.I
     FI = entry_fields(I, chk)
-    order = ['pointer_low', 'options', 'pointer_middle', 'pointer_high', 'reserved', 'phantom']
-    chk.ob('entry', 'Entry field order known', [k for k, _ in sorted(FI.items(), key=lambda kv: kv[1])] == order, 'fields %s' % FI)
+    chk.ob('entry', 'Entry has the six pieces of a gate', len(FI) == 6, 'fields %s' % FI, nontrivial=False)
     gen = I.fn[ENTRY + '::<F>::set_handler_addr']['generics']
 
     # ---- set_handler_addr
@@ -430,11 +429,12 @@ def options(chk):
     outs = run_setter('set_code_selector', [Struct('registers::segmentation::SegmentSelector', [BV.sym(16, 'ncs')])])
     cs, bits = final(outs[0]) if one(outs) else (None, None)
     chk.ob('options', 'set_code_selector changes only the selector', one(outs) and same(bits, BV(16, ob)) and same(cs, BV.sym(16, 'ncs')), 'final %r / %r' % (cs, bits))
-    # minimal
-    outs = I.run(OPTS + '::minimal', [])
-    v = outs[0].val if len(outs) == 1 and outs[0].kind == 'ret' else None
-    chk.ob('options', 'minimal() = selector 0, interrupt-gate type, not present', v is not None and eval_value(inner(v.fields[0]), {}) == 0 and
-           eval_value(v.fields[1], {}) == (D.GATE_TYPE_INTERRUPT << D.GATE_TYPE[0]), 'found %r' % (v,))
+    # minimal (a private constructor today; Entry::missing below is the public place where its value shows)
+    if (OPTS + '::minimal') in I.fn and I.fn[OPTS + '::minimal']['argc'] == 0:
+        outs = I.run(OPTS + '::minimal', [])
+        v = outs[0].val if len(outs) == 1 and outs[0].kind == 'ret' else None
+        chk.ob('options', 'minimal() = selector 0, interrupt-gate type, not present', v is not None and eval_value(inner(v.fields[0]), {}) == 0 and
+               eval_value(v.fields[1], {}) == (D.GATE_TYPE_INTERRUPT << D.GATE_TYPE[0]), 'found %r' % (v,))
 
 
 # ------------------------------------------------------------------------------------------------ table
